@@ -1,9 +1,10 @@
+\* repaired start() (X02_fix_start_cleanup.diff), HTTP+HTTPS, every environment
 SPECIFICATION Spec
 CONSTANTS
   Cfg = {"http", "https"}
   Envs <- EnvsBoth
-  Senders = {"s1", "s2"}
-  NInd = 1
+  Senders = {"s1"}
+  NInd = 2
   MaxQ = 1
   MaxOps = 2
   InitCbs <- Cbs1
